@@ -226,4 +226,13 @@ def r5_expectation_conversion_linear(ctx):
     apply_qe_laws(ctx)
 
 
-RULES = [r5_expectation_conversion_linear, r4_no_inplace_on_memoised, r1_linear_in_time_step, r2_additive_deposit, r3_clock_and_retention]
+def r6_every_interval_is_integrated_from_its_own_start(ctx):
+    """"Depends only on its start and end times": the readout a run actually uses keeps the declared start time and mode when it is derived from the user's readout (Readout.replace carries every constructor setting; shared with C06.R5), and what a flux-integrating model deposits reaches the charge container whatever its size - add_charge_array adds the array as given, with no "too small to matter" shortcut (shared with C14.R3)."""
+    from props.C06 import r5_readout_replace_complete
+    from props.C14 import r3_representation_switch
+
+    r5_readout_replace_complete(ctx)
+    r3_representation_switch(ctx)
+
+
+RULES = [r6_every_interval_is_integrated_from_its_own_start, r5_expectation_conversion_linear, r4_no_inplace_on_memoised, r1_linear_in_time_step, r2_additive_deposit, r3_clock_and_retention]
